@@ -12,7 +12,7 @@ META = {
                   'data size = frames x block alignment; block alignment = channels x width, byte rate = rate x block alignment, bits = 8 x width. Proved for every memory and every declared size: whenever decode '
                   'succeeds with length L <= sz, encoding the decoded structure returns L and writes the same L bytes except that a skipped format-chunk extension is written as zeros '
                   '(PCM, float+fact, extensible with and without the 22-byte extension are cases of one proof).',
-    'level_note': 'Trusted: Lean kernel (standard axioms; byte-order lemmas via bv_decide certificates as listed in trusted_base); the hand model of wavheader.c/pack.c, validated on every run against the real code; '
+    'level_note': 'Tie T2 (DESIGN 12.7): wavheader.c is regenerated each run as a control skeleton with data (pack functions, memcmp, memcpy external; array members and tables as identities) and rf_wavheader_init / set_num_frames / validate / encode / decode are proved equal to Model.Wav on every input (Props/C13TieSeq.lean; bv_decide certificates for its *_generated theorems only; the order of decode\'s reads is pinned by decode_generated, their positions follow by inspection of decHead/decExt/decTail). Trusted: Lean kernel (standard axioms; byte-order lemmas via bv_decide certificates as listed in trusted_base); the hand model of wavheader.c/pack.c, validated on every run against the real code; '
                   'int arithmetic of rf_wavheader_init is modelled as wrapping (gcc); the proved scope (Scope in Props/C13.lean) is: format in {S16LE,S32LE,FLOAT}, rate < 2^31, channels*width < 2^16, rate*width*channels < 2^32 '
                   '(and rate*width < 2^32, which only binds for 0 channels), header length - 8 + frames*block alignment < 2^32, frames*channels < 2^32; products between 2^31 and 2^32 rely on gcc\'s wrapping of the int multiplication; '
                   'memcmp/memcpy/memset are libc and modelled as list operations; '
@@ -275,7 +275,7 @@ def run(ctx):
         ctx.broken.append(f'tie T: tools/c2lean2.py cannot translate unit {u}: {e}')
     seq_ok = lambda t, a: t.startswith('Librfn.C13.TieSeq.') and a.startswith('Librfn.C13.TieSeq.') and '._native.bv_decide.ax_' in a
     seq_req = ['Librfn.C13.TieSeq.set_num_frames_tie', 'Librfn.C13.TieSeq.init_tie', 'Librfn.C13.TieSeq.validate_tie', 'Librfn.C13.TieSeq.encode_tie',
-               'Librfn.C13.TieSeq.encode_generated']
+               'Librfn.C13.TieSeq.encode_generated', 'Librfn.C13.TieSeq.decode_generated', 'Librfn.C13.TieSeq.decode_tie', 'Librfn.C13.TieSeq.decode_ret_tie']
     ctx.prove(['Librfn.Props.C13', 'Librfn.Props.C13Tie', 'Librfn.Props.C13TieSeq'], REQUIRED + ['Librfn.C13.get_format_tie'] + seq_req,
               allow_extra_axioms=lambda t, a: tie_ok(t, a) or seq_ok(t, a))
     ctx.cov['tie_T_generated_units'] = {'WavSeq': regen.UNITS2['WavSeq'][1], 'Wav': ['rf_wavheader_get_format']}
